@@ -3,14 +3,14 @@ import json, os
 from common import Check, VERIF, WORK
 
 
-def standard(pid, tier, seed, theorem_files, runs, level="proof", vm_k=40, post=None, rule_extra=""):
+def standard(pid, tier, seed, theorem_files, runs, level="proof", vm_k=40, post=None, rule_extra="", race=False):
     """runs: list of dicts {cmd, quick, thorough, extra?, model?: bool (diff against the Coq model)}"""
     chk = Check(pid, tier, seed)
     chk.regenerate()
     proof_ok, why = chk.proof_gate([f[:-2] + ".vo" for f in theorem_files] + ["Extract/Extract.vo"], theorem_files)
     if not proof_ok:
         chk.notes.append("PROOF GATE BROKEN: " + why)
-    okh, outh = chk.build_harness()
+    okh, outh = chk.build_harness(race=race)
     if not okh:
         chk.notes.append("harness build failed: " + outh)
         chk.violation("harness-build", {"broken": "harness does not build against /repo", "detail": outh}, found_input=False)
@@ -27,7 +27,7 @@ def standard(pid, tier, seed, theorem_files, runs, level="proof", vm_k=40, post=
         shards = r.get("shards_thorough", 1) if tier == "thorough" else 1
         for sh_i in range(shards):
             st, cases, raw = chk.run_harness(r["cmd"], n, f"{r['cmd']}_{sh_i}", r.get("extra", ""), seed=seed + 7919 * sh_i,
-                                             timeout=r.get("timeout", 1500))
+                                             timeout=r.get("timeout", 1500), race=race)
             if st is None:
                 chk.notes.append(f"harness {r['cmd']} failed: {raw}")
                 chk.violation(f"harness-{r['cmd']}", {"broken": f"harness command {r['cmd']} crashed", "detail": raw}, found_input=False)
